@@ -497,6 +497,7 @@ func c01Run(c *fw.C, caseID string) {
 			}
 		}
 	}
+	hr := c.Rand(caseID + "/hostile-amounts")
 	for i := 0; i < nMomentums && !mon.failed; i++ {
 		long := nMomentums >= 300
 		steps := r.Intn(7)
@@ -524,6 +525,25 @@ func c01Run(c *fw.C, caseID string) {
 			}
 			c01Collect(P, w, r)
 			mon.check("user-block CollectReward(after epoch update)", w)
+		}
+		// hostile amounts (own PRNG): a block whose in-memory amount is negative (what a JSON request can carry; hash
+		// and signature only cover the magnitude) as a plain transfer, a donation, a burn. Whether it is refused is
+		// C03's business; here only what the ledger adds up to afterwards counts.
+		if hr.Intn(4) == 0 && !(long && P.Height() < 590) {
+			us := simnet.DefaultUsers()
+			u := us[hr.Intn(len(us))]
+			amt := big.NewInt(-(1 + hr.Int63n(50*g.Zexp)))
+			zts := []types.ZenonTokenStandard{types.ZnnTokenStandard, types.QsrTokenStandard}[hr.Intn(2)]
+			to, data, what := us[hr.Intn(len(us))].Address, []byte(nil), "transfer"
+			switch hr.Intn(3) {
+			case 1:
+				to, data, what = types.AcceleratorContract, definition.ABICommon.PackMethodPanic(definition.DonateMethodName), "accelerator.Donate"
+			case 2:
+				to, data, what = types.TokenContract, definition.ABIToken.PackMethodPanic(definition.BurnMethodName), "token.Burn"
+			}
+			_, err := P.Send(u, to, zts, amt, data)
+			c.Count(fmt.Sprintf("negative_amount_%s accepted=%v", what, err == nil), 1)
+			mon.check("user-block negative amount "+what, w)
 		}
 		skip := 0
 		if r.Intn(9) == 0 {
